@@ -8,6 +8,7 @@ import (
 
 	"verif/harness/fw"
 	"verif/harness/gen"
+	"verif/harness/jast"
 	"verif/harness/obs"
 	"verif/harness/prng"
 )
@@ -112,6 +113,89 @@ func c05Clock(i int64, seed uint64, r *fw.Rec) {
 				r.Violation("clock-not-constant-within-an-evaluation", fmt.Sprintf("evaluation #%d: reading %d is %v, reading 0 is %v", k+1, j, x, arr[0]), nil)
 				return
 			}
+		}
+	}
+	r.Outcome("compared")
+	r.Held()
+}
+
+// Evaluation leaves the compiled expression as it was: path shapes built from
+// the keep-array marker, order-by, predicates, groupings and steps in every
+// order are evaluated on an input in which they select something; the syntax
+// tree (structural hash over VerifNode) and the printed form must not change,
+// and the outcome must be the same every time.
+func c05Structure(i int64, seed uint64, r *fw.Rec) {
+	rr := prng.New(seed, 0xC05A, uint64(i))
+	var tree jast.Node = &jast.Name{V: "arr"}
+	asPath := func(n jast.Node) *jast.Path {
+		if p, ok := n.(*jast.Path); ok {
+			return &jast.Path{Steps: append([]jast.Node{}, p.Steps...), Keep: p.Keep}
+		}
+		return &jast.Path{Steps: []jast.Node{n}}
+	}
+	grouped := false
+	for k, n := 0, rr.Range(2, 5); k < n; k++ {
+		switch rr.Intn(6) {
+		case 0:
+			p := asPath(tree)
+			p.Keep = true
+			tree = p
+		case 1:
+			if !grouped {
+				tree = &jast.Sort{X: tree, Terms: []jast.SortTerm{{Dir: rr.Pick("", ">", "<"), X: &jast.Name{V: rr.Pick("v", "k")}}}}
+			}
+		case 2:
+			if !grouped {
+				tree = &jast.Pred{X: tree, Filters: []jast.Node{[]jast.Node{&jast.Num{V: 0}, &jast.Num{V: -1}, &jast.Bin{Op: ">", L: &jast.Name{V: "v"}, R: &jast.Num{V: 1}}}[rr.Intn(3)]}}
+			}
+		case 3:
+			p := asPath(tree)
+			p.Steps = append(p.Steps, &jast.Name{V: rr.Pick("v", "k", "a")})
+			tree = p
+		case 4:
+			if !grouped {
+				grouped = true
+				tree = &jast.Group{X: tree, Pairs: [][2]jast.Node{{&jast.Name{V: "k"}, &jast.Name{V: "v"}}}}
+			}
+		default:
+			p := asPath(tree)
+			p.Steps = append(p.Steps, &jast.Block{Exprs: []jast.Node{&jast.Var{Name: ""}}})
+			tree = p
+		}
+	}
+	prog := jast.Print(jast.Normalize(tree), jast.Style{Space: 1})
+	docJSON := `{"arr":[{"k":"a","v":2},{"k":"b","v":1},{"k":"a","v":3}]}`
+	if rr.Intn(4) == 0 {
+		docJSON = `{"arr":{"k":"a","v":2}}`
+	}
+	r.Begin(prog, docJSON)
+	r.Tag("structure-preserved")
+	e, co := obs.Compile(prog)
+	if e == nil {
+		// (not every combination is a legal program: a predicate on a grouping is not)
+		r.Outcome(co.Class())
+		r.Held()
+		return
+	}
+	r.Nontrivial(prog + docJSON)
+	h0, s0 := astHash(e.VerifNode()), e.String()
+	first := ""
+	for k := 0; k < 3; k++ {
+		r.Evals(1)
+		d := digest(obs.Eval(e, decodeDoc(docJSON)), false, false)
+		if k == 0 {
+			first = d
+		} else if d != first {
+			r.Violation("outcome-changed:same-input", fmt.Sprintf("evaluation #%d of %s gave %q, the first gave %q", k+1, prog, clipS(d), clipS(first)), nil)
+			return
+		}
+		if h := astHash(e.VerifNode()); h != h0 {
+			r.Violation("ast-changed", fmt.Sprintf("the syntax tree of %s changed during Eval #%d", prog, k+1), map[string]any{"before": s0, "after": e.String()})
+			return
+		}
+		if s := e.String(); s != s0 {
+			r.Violation("string-changed", fmt.Sprintf("Expr.String() changed during Eval #%d: %q -> %q", k+1, clipS(s0), clipS(s)), nil)
+			return
 		}
 	}
 	r.Outcome("compared")
